@@ -578,11 +578,24 @@ func main() {
 	}
 
 	if c.Replay != "" {
-		var s Schedule
-		if err := c.ReadReplay(&s); err != nil {
-			panic(err)
+		var probe struct {
+			Kind string `json:"kind"`
 		}
-		do(&s)
+		c.ReadReplay(&probe)
+		switch probe.Kind {
+		case "closed-endpoint":
+			closedEndpoints(c)
+		case "icmp-ack-replay":
+			icmpAckReplay(c)
+		case "concurrent-duplicate-delivery":
+			concurrentDeliveries(c)
+		default:
+			var s Schedule
+			if err := c.ReadReplay(&s); err != nil {
+				panic(err)
+			}
+			do(&s)
+		}
 	} else {
 		for _, s := range fixedWitnesses() {
 			do(s)
@@ -599,6 +612,8 @@ func main() {
 
 	if c.Replay == "" {
 		concurrentDeliveries(c)
+		closedEndpoints(c)
+		icmpAckReplay(c)
 	}
 
 	var sb strings.Builder
